@@ -1,5 +1,115 @@
-import NpsVerif.Model.Index
+import NpsVerif.Model.IndexWidth
+import NpsVerif.Props.C02
+import NpsVerif.Proofs.IndexWidth
+/-! Property C19: the 32-bit index configuration — (a) the packed-word row gather agrees with the
+pairwise one, (b) geometry and gather-index builder values fit a signed 32-bit index. -/
+open Model Model.W32
+
 namespace Props.C19
-/-- sanity instance; the universally quantified theorems are added as they are proved -/
-theorem placeholder : (2 : Nat) ^ 31 = 2147483648 := by decide
+
+/-- (a) the two row-gather paths agree: packing (start, length) pairs below 2^32 into words, selecting
+words and unpacking equals selecting the pairs — for every row selector (int, slice of any step, index
+list with negatives, boolean mask, all) incl. refusals -/
+theorem C19_index_rows_paths_agree (codes : List (Nat × Nat)) (h : ∀ c ∈ codes, c.1 < B32 ∧ c.2 < B32)
+    (sel : RowSel) : indexRows32 codes sel = indexRows codes sel :=
+  indexRows32_eq codes (fun c hc => (h c hc).1) sel
+
+/-- pack / unpack round trip -/
+theorem C19_unpack_pack (codes : List (Nat × Nat)) (h : ∀ c ∈ codes, c.1 < B32 ∧ c.2 < B32) :
+    unpack64 (pack64 codes) = codes :=
+  unpack_pack codes (fun c hc => (h c hc).1)
+
+/-- `build_indices` is the cumulative sum of `indexBuilder` (the model of C02 restated through the
+intermediate array whose entries must fit the index dtype) -/
+theorem C19_builder_cumsum (step : Int) (vrows : List (Int × Int × Nat)) :
+    buildIndices step vrows = (Np.cumsum (indexBuilder step vrows)).dropLast :=
+  indexBuilder_cumsum step vrows
+
+/-- (b) no overflow, geometry: with `size + 1 < 2^31` every start, end and length of a contiguous
+shape fits a signed 32-bit index -/
+theorem C19_geometry_fits (ls : List Nat) (h : (ls.sum : Int) + 1 < 2 ^ 31) :
+    ∀ c ∈ (Shape.ofLens ls).codes, Fits32 c.1 ∧ Fits32 c.2 ∧ Fits32 ((c.1 + c.2 : Nat) : Int) := by
+  intro c hc
+  have hb := ofLens_codes_bound ls c hc
+  unfold Fits32
+  refine ⟨⟨?_, ?_⟩, ⟨?_, ?_⟩, ⟨?_, ?_⟩⟩ <;> omega
+
+/-- (b) no overflow, gather-index builder for a row selection of a shape (the view's rows are rows
+of a buffer of `size < 2^31 - 1` cells, step 1): every stored increment and every partial sum of the
+cumulative sum fits a signed 32-bit index -/
+theorem C19_builder_fits (codes : List (Nat × Nat)) (size : Nat) (h : (size : Int) + 1 < 2 ^ 31)
+    (hin : ∀ c ∈ codes, c.1 + c.2 ≤ size) (htot : (codes.map (·.2)).sum ≤ size) :
+    let vrows := codes.map (fun c => ((c.1 : Int), ((c.1 + c.2 : Nat) : Int), c.2))
+    (∀ x ∈ indexBuilder 1 vrows, Fits32 x) ∧ (∀ x ∈ Np.cumsum (indexBuilder 1 vrows), Fits32 x) := by
+  intro vrows
+  have hv : vrows = (codes.map (fun c => (((c.1 : Int), c.2) : Int × Nat))).map (vrow 1) := by
+    simp only [vrows, List.map_map]
+    apply List.map_congr_left
+    intro c _
+    simp only [Function.comp, vrow, rowEnd]
+    congr 2
+    push_cast
+    omega
+  have hlens : (codes.map (fun c => (((c.1 : Int), c.2) : Int × Nat))).map (·.2) = codes.map (·.2) := by
+    simp [List.map_map, Function.comp]
+  by_cases hs : (codes.map (·.2)).sum = 0
+  · have : indexBuilder 1 vrows = [] := by
+      apply indexBuilder_of_sum_zero
+      rw [hv]
+      rw [List.map_map, List.map_map]
+      exact hs
+    rw [this]
+    simp [Np.cumsum, Np.cumsumFrom]
+  · have hs' : ((codes.map (fun c => (((c.1 : Int), c.2) : Int × Nat))).map (·.2)).sum ≠ 0 := by rw [hlens]; exact hs
+    rw [hv, indexBuilder_vrow 1 _ hs']
+    have hsize : 0 ≤ (1 : Int) ∧ (1 : Int) ≤ (size : Int) := by omega
+    have hR : ∀ r ∈ (codes.map (fun c => (((c.1 : Int), c.2) : Int × Nat))).filter (·.2 != 0),
+        0 < r.2 ∧ 0 ≤ r.1 ∧ r.1 + (r.2 : Int) ≤ (size : Int) := by
+      intro r hr
+      obtain ⟨hr1, hr2⟩ := List.mem_filter.mp hr
+      obtain ⟨c, hc, rfl⟩ := List.mem_map.mp hr1
+      have := hin c hc
+      simp at hr2
+      simp only
+      omega
+    constructor
+    · intro x hx
+      apply fits32_of_bounds size h
+      rw [List.mem_append] at hx
+      rcases hx with hx | hx
+      · exact builderFrom_entries size 1 _ hsize hR x hx
+      · simp at hx; omega
+    · intro x hx
+      have := builderFrom_cumsum size 1 _ hsize hR x (by simpa [Np.cumsum] using hx)
+      apply fits32_of_bounds size h
+      omega
+
+/-! ### instances -/
+
+/- a reversed stepped slice and a mask selector through both paths (an empty row in the middle) -/
+example : indexRows32 [(0, 2), (2, 0), (2, 3)] (.slice none none (some (-2))) = some [(2, 3), (0, 2)] ∧
+    indexRows [(0, 2), (2, 0), (2, 3)] (.slice none none (some (-2))) = some [(2, 3), (0, 2)] ∧
+    indexRows32 [(0, 2), (2, 0), (2, 3)] (.mask [true, false, true]) = some [(0, 2), (2, 3)] ∧
+    indexRows [(0, 2), (2, 0), (2, 3)] (.mask [true, false, true]) = some [(0, 2), (2, 3)] ∧
+    indexRows32 [(0, 2), (2, 0), (2, 3)] (.mask [true, false]) = none ∧
+    indexRows32 [(0, 2), (2, 0), (2, 3)] (.slice none none (some 0)) = none ∧
+    indexRows32 [(0, 2), (2, 0), (2, 3)] (.list [-1, 0]) = some [(2, 3), (0, 2)] ∧
+    indexRows32 [(0, 2), (2, 0), (2, 3)] (.int (-3)) = some [(0, 2)] ∧
+    indexRows32 [(0, 2), (2, 0), (2, 3)] (.int 3) = none := by decide
+
+/- the hypothesis matters: a start ≥ 2^32 spills into the length half of the word -/
+example : unpack64 (pack64 [(2 ^ 32, 0)]) = [(0, 1)] ∧ unpack64 (pack64 [(2 ^ 32, 0)]) ≠ [(2 ^ 32, 0)] := by
+  decide
+
+example : indexRows32 [(2 ^ 32, 0)] .all ≠ indexRows [(2 ^ 32, 0)] .all := by decide
+
+/- the builder and its cumulative sum on a selection with an empty row, rows out of order -/
+example : indexBuilder 1 (([(2, 3), (2, 0), (0, 2)] : List (Nat × Nat)).map
+      (fun c => ((c.1 : Int), ((c.1 + c.2 : Nat) : Int), c.2))) = [2, 1, 1, -4, 1, 1] ∧
+    Np.cumsum (indexBuilder 1 (([(2, 3), (2, 0), (0, 2)] : List (Nat × Nat)).map
+      (fun c => ((c.1 : Int), ((c.1 + c.2 : Nat) : Int), c.2)))) = [2, 3, 4, 0, 1, 2] := by decide
+
+/- geometry of a small shape -/
+example : (Shape.ofLens [2, 0, 3]).codes = [(0, 2), (2, 0), (2, 3)] := by decide
+
 end Props.C19
